@@ -180,7 +180,7 @@ ZSTD_rescaleFreqs(optState_t* const optPtr,
                 for (ll=0; ll<=MaxLL; ll++) {
                     U32 const scaleLog = 10;   /* scale to 1K */
                     U32 const bitCost = FSE_getMaxNbBits(llstate.symbolTT, ll);
-                    assert(bitCost < scaleLog);
+                    assert(bitCost <= scaleLog);   /* a symbol absent from the dictionary's table costs tableLog+1 */
                     optPtr->litLengthFreq[ll] = bitCost ? 1 << (scaleLog-bitCost) : 1 /*minimum to calculate cost*/;
                     optPtr->litLengthSum += optPtr->litLengthFreq[ll];
             }   }
@@ -192,7 +192,7 @@ ZSTD_rescaleFreqs(optState_t* const optPtr,
                 for (ml=0; ml<=MaxML; ml++) {
                     U32 const scaleLog = 10;
                     U32 const bitCost = FSE_getMaxNbBits(mlstate.symbolTT, ml);
-                    assert(bitCost < scaleLog);
+                    assert(bitCost <= scaleLog);   /* a symbol absent from the dictionary's table costs tableLog+1 */
                     optPtr->matchLengthFreq[ml] = bitCost ? 1 << (scaleLog-bitCost) : 1 /*minimum to calculate cost*/;
                     optPtr->matchLengthSum += optPtr->matchLengthFreq[ml];
             }   }
@@ -204,7 +204,7 @@ ZSTD_rescaleFreqs(optState_t* const optPtr,
                 for (of=0; of<=MaxOff; of++) {
                     U32 const scaleLog = 10;
                     U32 const bitCost = FSE_getMaxNbBits(ofstate.symbolTT, of);
-                    assert(bitCost < scaleLog);
+                    assert(bitCost <= scaleLog);   /* a symbol absent from the dictionary's table costs tableLog+1 */
                     optPtr->offCodeFreq[of] = bitCost ? 1 << (scaleLog-bitCost) : 1 /*minimum to calculate cost*/;
                     optPtr->offCodeSum += optPtr->offCodeFreq[of];
             }   }
